@@ -41,7 +41,10 @@ Clauses(e) ==
                                         ELSE /\ ~e.raised
                                              /\ Len(e.labels) = Len(classes)
                                              /\ e.summary[2] = Len(classes)
-                                             /\ e.summary[1] = Cardinality({j \in 1..Len(classes) : classes[j] # e.labels[j]}) ]
+                                             /\ e.summary[1] = Cardinality({j \in 1..Len(classes) : classes[j] # e.labels[j]}),
+             \* the true labels the summary is taken against are the labels that were handed over with the tested samples (whatever the
+             \* caller did with its own data set objects afterwards)
+             C19_TrueLabelsKept |-> classes = <<>> \/ e.raised \/ Len(labels) # Len(classes) \/ e.labels = labels ]
       [] e.k = "relearn" ->      \* continue_dimension_wise_refinement: the stored test set is classified again with the refined densities
            [ C19_ArgMax |-> e.raised \/ (Len(e.classes) = Len(classes) /\ \A j \in 1..Len(e.classes) : IsArgMax(e.ranks[j], e.classes[j])),
              C19_NoException |-> ~e.raised ]
@@ -55,7 +58,8 @@ Next == /\ l < Len(T.events) /\ l' = l + 1 /\ tid' = tid
         /\ LET e == Ev(l + 1) IN
              /\ fails' = fails \cup FailedOf(Clauses(e), l + 1)
              /\ classes' = IF e.k \in {"call", "test"} \/ (e.k = "relearn" /\ ~e.raised) THEN e.classes ELSE classes
-             /\ labels' = labels
+             /\ labels' = IF e.k = "test" /\ ~e.raised /\ Len(e.classes) = Len(classes) + Len(TestedIdx(e))
+                           THEN labels \o [j \in 1..Len(TestedIdx(e)) |-> e.labelsin[TestedIdx(e)[j]]] ELSE labels
         /\ Record(tid, Len(T.events), l + 1, fails')
 Spec == Init /\ [][Next]_vars
 Post == PrintVerdicts
